@@ -91,7 +91,9 @@ def seeds_block():
         if str(first).lower().startswith("caught"):
             nfirst += 1
         summ = re.sub(r"\s+", " ", meta.get("summary", ""))[:150].replace("|", "/")
-        rows.append("| %s | %s | %s | %s |" % (d, summ, ", ".join(rules) if caught else "**missed**", str(first).replace("|", "/")))
+        others = [p_ for p_ in r.get("caught_by", []) if p_ != prop]
+        shown = ", ".join(rules) if caught else ("**not by %s**; reported by %s" % (prop, ", ".join(others)) if others else "**missed**")
+        rows.append("| %s | %s | %s | %s |" % (d, summ, shown, str(first).replace("|", "/")))
     rows.append("")
     rows.append("%d seeded changes; %d reported by their own property's check today; %d were reported on the first run "
                 "(by a rule that existed before the seed was seen)." % (len(dirs), ncaught, nfirst))
